@@ -58,6 +58,16 @@ def workload(tier, seed, scale=1.0):
                 cmds.append(cmd_pw('C12', ty, b, e, 'I', cell=('maxexp', ty, b, e & 1)))
                 if b >= 0:
                     cmds.append(cmd_pw('C12', ty, b, e, 'U', cell=('maxexp', ty, b, 'U')))
+    # exponents whose low 32 / 64 bits are zero (wide exponent types), bases 0 and +-1 only
+    for ty in ('u64', 'usize', 'u128'):
+        hi = STYPES[ty][1]
+        for e in (1 << 32, 3 << 32, (1 << 32) + 1, 1 << 33, 1 << 63, (1 << 63) + (1 << 32), 1 << 64, 5 << 64, (1 << 64) + 1, 1 << 96, 1 << 127, hi - (1 << 32) + 1):
+            if e > hi:
+                continue
+            for b in (0, 1, -1):
+                cmds.append(cmd_pw('C12', ty, b, e, 'I', cell=('wide-exp', ty, b, e.bit_length(), e & 0xffffffff == 0)))
+                if b >= 0:
+                    cmds.append(cmd_pw('C12', ty, b, e, 'U', cell=('wide-exp', ty, b, 'U', e.bit_length(), e & 0xffffffff == 0)))
     # BigUint exponents
     for e in [0, 1, 2, 3, 10, 64, 65, 300, M64, 1 << 64, (1 << 64) + 1, (1 << 128) - 1, 1 << 128, (1 << 128) + 1, (1 << 200) + 1, 1 << 200]:
         for b in (0, 1, -1):
